@@ -20,7 +20,7 @@ CHECKS = {
              "containing no '(' in the type text (validated on generated values); class names identify classes; model tied by correspondence.",
         design="5/C01"),
     "C02": dict(
-        technique="Lean 4 proof: model of _eq_fn (class, content_id, root origin, strict zip of dfs streams) decides ContentEq ∧ originsAgree; equivalence laws; + differential correspondence on pairs/triples with origins differing at one position",
+        technique="Lean 4 proof: model of _eq_fn (class, content_id, root origin, strict zip of dfs streams) decides ContentEq ∧ originsAgree; equivalence laws; + differential correspondence on pairs/triples with origins differing at one position; `_eq_fn` is REGENERATED from node.py on every run and the model is proved equal to it (GenBridge.eqImpl_eq_gen, optional obligation)",
         text="Theorems (all well-formed trees conforming to a class table, injective digest): eqImpl never raises (the strict zip sees "
              "streams of equal length whenever content ids agree), eqImpl = true iff content-equal and origins agree at every position, "
              "reflexive/symmetric/transitive, != is the negation, other class => False. hash constancy is the C10 frame. Correspondence: "
